@@ -339,7 +339,7 @@ static size_t safec_ntoa_format(out_fct_type out, const char *funcname,
                 zeros--;
             else
                 len--;
-            if (len + zeros > digits && (base == 16U)) {
+            if (len + zeros > digits && (base == 16U || base == 2U)) {
                 if (zeros)
                     zeros--;
                 else
